@@ -28,7 +28,7 @@ CXX = os.environ.get("JV_CXX", "clang++")
 BASE = ["-std=c++17", "-Ofast", "-fno-vectorize", "-fPIC", "-DEMBEDDED_PAIRING_VERIF", "-fno-omit-frame-pointer"]
 REPLICAS = {
     "A": [],
-    "As": ["-mbmi2", "-madx", "-DNDEBUG"],   # the "release" build: static BMI2/ADX selection and NDEBUG (the unchanged tree has no assert, so this changes nothing there)
+    "As": ["-mbmi2", "-madx", "-mavx2", "-DNDEBUG"],   # the "release" build for this CPU generation: static BMI2/ADX selection, AVX2 enabled, NDEBUG (the unchanged tree has no assert, so this changes nothing there)
     "B": ["-DDISABLE_ASM"],
     "C": ["-DDISABLE_ASM", "-U__SIZEOF_INT128__", "-funsigned-char", "-Os", "-fno-builtin", "-fshort-enums"],   # what the Makefile's Cortex-M0+ section compiles, as far as an x86-64 host can: 32-bit words, -Os -fno-builtin -fshort-enums, plain char unsigned as in the ARM ABIs
     "D": ["@plain", "-DDISABLE_ASM", "-U__SIZEOF_INT128__", "-O0"],   # the debug build: portable code without optimisation (nothing a compiler's use of __restrict, of undefined evaluation order or of dead stores could mask); plain flavour only
